@@ -8,7 +8,7 @@ for f in glob.glob('/tmp/s/%s/out/*' % sid):
     shutil.copy(f, d)
 m = json.load(open(d + '/meta.json'))
 m['confirmed'] = {'by': 'main session', 'demo_fails_with_change': True, 'demo_passes_without': True,
-                  'ran': 'tools/seedtest.sh %s <demo args> -- %s  (demo both ways in the seeding worktree; git -C /repo apply patch.diff; ./check <props> --tier quick; git -C /repo checkout -- .)' % (sid, checks.replace(',', ' ')),
+                  'ran': 'tools/seedtest2.sh %s <demo args> -- %s  (demo both ways in the seeding worktree = /repo HEAD + patch.diff; VERIF_REPO=<that worktree> ./check <props> --tier quick; /repo itself left alone because other work was reading it)' % (sid, checks.replace(',', ' ')),
                   'checks_run': checks, 'result': how}
 json.dump(m, open(d + '/meta.json', 'w'), indent=1)
 subprocess.run(['git', '-C', '/repo', 'worktree', 'remove', '--force', '/tmp/s/%s/repo' % sid])
